@@ -376,9 +376,16 @@ func runCase(e *Env, idx int, c *Case, limit time.Duration) (*Out, error) {
 			rest = append(rest, a.Updates[ui+1:]...)
 			lvl := LevelOf(s.Opts.Levels, u.Name)
 			var baseS, afterS, baseSrc string
-			// a package the manifest installs twice (plainly and through an npm alias) has no single "version it resolves
-			// to": the resolution-based base is undefined for it (its requirement strings are judged if they are versions)
+			// a package the manifest requires twice (npm: plainly and through an alias; pom.xml: in dependencies and in
+			// dependencyManagement) has no single "version it resolves to": the resolution-based base is undefined for it
+			// (in update mode each declaration is judged by its own requirement strings if they are versions)
 			twice := s.declaredTwice(u.Name)
+			if twice && s.Eco != "npm" {
+				// pom.xml: only when the declaration's own strings can be judged; else the resolution-based judgement stays
+				_, okF := ParseVer(u.From)
+				_, okT := ParseVer(u.To)
+				twice = okF && okT
+			}
 			bg, berr := resolveReqs(applyUpdates(s.Eco, s.Manifest, rest))
 			if berr == nil && !twice {
 				if v, ok, _ := resolvedVersion(bg, u.Name, u.Alias); ok {
